@@ -1,7 +1,8 @@
 #!/usr/bin/env python3
 """gen11 — check of property C11 (coset enumeration returns the true coset table) for input-free
 configurations: a parameter-only presentation family (as in gen12.py) and a subgroup given by a
-pattern (trivial subgroup, whole group, <g1>, <g1 g2>, <g^m for every g>, <g1 g2 g1, g2>).
+pattern (trivial subgroup, whole group, <g1>, <g2>, <g1 g2>, <g^m for every g>, <g1 g2 g1, g2>,
+<g1^2, g2^2, g1 g2>, <[g1, g2]>, <g1^-1 g2, g2^2>).
 
     gen11.py check [--tier quick|thorough]
     gen11.py replay <replay.json>
@@ -43,13 +44,17 @@ TIERS = {
     "quick": [("D", 3, "triv"), ("D", 3, "first"), ("D", 3, "all"), ("D", 3, "mix"), ("D", 4, "triv"), ("D", 4, "ab"),
               ("D", 4, "first"), ("C", 6, "triv"), ("C", 6, "pow2"), ("C", 6, "pow3"), ("Z", 2, "pow2"), ("Z", 2, "all"),
               ("F", 2, "all"), ("T", 233, "first"), ("T", 233, "ab"), ("T", 233, "mix"), ("T", 234, "ab"), ("T", 235, "ab"),
-              ("T", 237, "all"), ("S", 2, "all")],
+              ("T", 237, "all"), ("S", 2, "all"), ("D", 4, "comm"), ("D", 3, "second"), ("D", 4, "mix"), ("Z", 2, "sqab"),
+              ("F", 2, "sqab"), ("T", 233, "second"), ("T", 234, "mix"), ("T", 233, "inv"), ("L", 4, "first"), ("R", 2, "pow2")],
     "thorough": [("D", 3, "triv"), ("D", 3, "first"), ("D", 3, "all"), ("D", 3, "mix"), ("D", 4, "triv"), ("D", 4, "ab"),
                  ("D", 4, "first"), ("D", 4, "mix"), ("D", 5, "first"), ("D", 5, "ab"), ("D", 6, "first"), ("D", 6, "mix"),
                  ("C", 6, "triv"), ("C", 6, "pow2"), ("C", 6, "pow3"), ("C", 8, "triv"), ("C", 8, "pow2"),
                  ("Z", 2, "pow2"), ("Z", 2, "all"), ("Z", 3, "pow2"), ("Z", 3, "all"), ("F", 2, "all"), ("F", 3, "all"),
                  ("T", 233, "first"), ("T", 233, "ab"), ("T", 233, "mix"), ("T", 233, "triv"), ("T", 234, "ab"),
-                 ("T", 234, "first"), ("T", 235, "ab"), ("T", 235, "first"), ("T", 237, "all"), ("S", 2, "all")],
+                 ("T", 234, "first"), ("T", 235, "ab"), ("T", 235, "first"), ("T", 237, "all"), ("S", 2, "all"), ("D", 4, "comm"), ("D", 3, "second"),
+                 ("Z", 2, "sqab"), ("F", 2, "sqab"), ("F", 3, "sqab"), ("T", 233, "second"), ("T", 234, "mix"), ("T", 233, "inv"),
+                 ("T", 234, "inv"), ("T", 235, "mix"), ("D", 6, "comm"), ("D", 5, "mix"), ("L", 4, "first"), ("L", 6, "second"),
+                 ("R", 2, "pow2"), ("R", 3, "pow2"), ("Z", 3, "sqab")],
 }
 BOUND = {"quick": 9, "thorough": 10}
 SOLVER_TIMEOUT = {"quick": 120, "thorough": 1200}
